@@ -38,3 +38,13 @@ CHECKS["C02"] = (
  "2*10^6 (quick) / 4.8*10^7 (thorough) hostile inputs through the css, js, html (plain and 3 template dialects) and xml lexers with 4 Input constructors: every token is compared with the buffer at the offset reported after the call, order/non-emptiness/no spare capacity are asserted, css and js tokens before the first lexical error must tile exactly and re-lex to themselves, html/xml gaps must be tag-internal whitespace, Text/AttrKey/AttrVal must lie inside their token, and the buffer is diffed with a pristine copy for rewrites outside the allowed regions. Held on what was observed.",
  "Readings of the allowed rewrites (whole end-tag token lower-cased, names of foreign elements cut short by NUL) are listed in the evidence assumptions and DESIGN.md §4 C02.",
  "DESIGN.md §4 C02")
+CHECKS["C10"] = (
+ "differential monitor against encoding/json (Valid/Compact), shadow-stack nesting monitor with State() and depth hook, structural-mutant oracle (runtime monitoring)",
+ "9*10^5 (quick) / 2.4*10^7 (thorough) cases: generated valid documents must parse without error and re-join byte-identically to json.Compact; on fuzzed inputs every Start/End unit is matched against a shadow stack, State() and the hooked stack depth are compared with it after every call; five kinds of structural mutants (mismatched/extra closer, missing comma, missing colon, non-string key) must end in a *parse.Error before the offending construct is delivered. Held on what was observed.",
+ "encoding/json.Valid defines validity. After an error report only Start/End matching is demanded.",
+ "DESIGN.md §4 C10")
+CHECKS["C11"] = (
+ "construction-time ground truth from a document generator, differential monitor against encoding/xml RawToken, attribute-placement trace automaton and end-report clause on hostile bytes (runtime monitoring)",
+ "7*10^5 (quick) / 1.8*10^7 (thorough) cases: generated well-formed documents are compared token by token (type, bytes, Text(), AttrVal()) with the abstract document they were spelled from and with encoding/xml for element names, attribute names and entity-free values; on hostile byte strings Attribute tokens must lie between a start tag and its closer, io.EOF may only be reported at Offset()==Len(), and an input containing NUL must end in an error. Held on what was observed.",
+ "Generator restricted to the XML subset named in the property (see evidence assumptions); encoding/xml is trusted as the conforming reader.",
+ "DESIGN.md §4 C11")
